@@ -147,10 +147,10 @@ fn sv(xs: &[&str]) -> Vec<String> {
     xs.iter().map(|s| s.to_string()).collect()
 }
 
-fn scenarios(variant: usize) -> Vec<Scenario> {
+fn scenarios(variant: usize, thorough: bool) -> Vec<Scenario> {
     let v = variant;
     let txt = |s: &str| format!("{s}-{v}\n");
-    vec![
+    let mut all = vec![
         Scenario { name: "new", setup: vec![], edits: vec![], cmd: sv(&["new", "-m", "two"]), cwd: "repo", colocated: false },
         Scenario {
             name: "describe+snapshot",
@@ -216,7 +216,34 @@ fn scenarios(variant: usize) -> Vec<Scenario> {
             cwd: "repo",
             colocated: false,
         },
-    ]
+    ];
+    if thorough {
+        all.push(Scenario {
+            name: "op-restore",
+            setup: vec![sv(&["new", "root()", "-m", "elsewhere"])],
+            edits: vec![],
+            cmd: sv(&["op", "restore", "@--"]),
+            cwd: "repo",
+            colocated: false,
+        });
+        all.push(Scenario {
+            name: "restore-from",
+            setup: vec![sv(&["new", "root()", "-m", "empty side"])],
+            edits: vec![("q".into(), txt("q"))],
+            cmd: sv(&["restore", "--from", "bm"]),
+            cwd: "repo",
+            colocated: false,
+        });
+        all.push(Scenario {
+            name: "duplicate",
+            setup: vec![],
+            edits: vec![],
+            cmd: sv(&["duplicate", "bm"]),
+            cwd: "repo",
+            colocated: false,
+        });
+    }
+    all
 }
 
 /// Working-copy file writes of one checkout run concurrently: their relative order (and
@@ -313,8 +340,9 @@ fn op_log(env: &Env, dir: &Path, seed: u64) -> Option<Vec<(String, Vec<String>)>
     Some(v)
 }
 
-/// Described commits and bookmarks visible at the head operation (ids are deterministic:
-/// timestamps and randomness are fixed per command).
+/// Described or bookmarked commits visible at the head operation, by change id, description,
+/// parents' change ids and bookmarks (commit ids would change with every snapshot of the
+/// working copy).
 fn signature(env: &Env, dir: &Path, seed: u64) -> String {
     let o = env.jj(
         dir,
@@ -325,7 +353,7 @@ fn signature(env: &Env, dir: &Path, seed: u64) -> String {
             "-r",
             "all()",
             "-T",
-            r#"if(description, commit_id ++ " " ++ description.first_line() ++ " ", "") ++ if(bookmarks, "bm:" ++ commit_id ++ ":" ++ bookmarks, "") ++ "\n""#,
+            r#"if(description || bookmarks, change_id ++ " " ++ description.first_line() ++ " p:" ++ parents.map(|c| c.change_id()).join(",") ++ " b:" ++ bookmarks ++ "\n", "")"#,
         ],
         seed,
         &[],
@@ -606,12 +634,13 @@ fn run_scenario(sc: &Scenario, root: &Path, jj: &Path, variant: usize) -> (Strin
                         0
                     } else if sig_now == sig_after {
                         1
-                    } else if contains(&sig_now, &sig_before) {
-                        0
-                    } else if contains(&sig_now, &sig_after) {
-                        1
                     } else {
-                        2
+                        match (contains(&sig_now, &sig_before), contains(&sig_now, &sig_after)) {
+                            (true, true) => 3, // recovery kept a divergent copy: both are there
+                            (true, false) => 0,
+                            (false, true) => 1,
+                            (false, false) => 2,
+                        }
                     };
                     let term = format!(
                         "(C15.mk_obs {n} {} {} {} {current} {} {checkout} {} {} {} {state})",
@@ -662,8 +691,10 @@ fn main() {
         let jj = jjv::jj_bin_path();
         let scratch = std::fs::canonicalize(&ctx.scratch).unwrap();
         for i in ctx.indices() {
-            let variant = i / 12;
-            let scs = scenarios(variant);
+            let thorough = ctx.tier == "thorough";
+            let per = if thorough { 15 } else { 12 };
+            let variant = i / per;
+            let scs = scenarios(variant, thorough);
             let sc = &scs[i % scs.len()];
             let root = scratch.join(format!("s{i}"));
             let r = jjv::catch(|| run_scenario(sc, &root, &jj, variant));
